@@ -5,7 +5,6 @@ import (
 	"fmt"
 	"net/http"
 	"net/http/httptest"
-	"regexp"
 	"runtime"
 	"strconv"
 	"sync"
@@ -28,24 +27,53 @@ func goid() uint64 {
 	return id
 }
 
-var reGo = regexp.MustCompile(`(?m)^goroutine (\d+) \[([^\],]+)`)
+var stackBuf = make([]byte, 1<<20)
 
 // gstates returns the scheduler state of every goroutine ("sync.Cond.Wait", "sync.Mutex.Lock",
 // "chan receive", "runnable", ...).
 func gstates() map[uint64]string {
-	buf := make([]byte, 1<<20)
 	for {
-		n := runtime.Stack(buf, true)
-		if n < len(buf) {
-			buf = buf[:n]
+		n := runtime.Stack(stackBuf, true)
+		if n < len(stackBuf) {
+			return parseStates(stackBuf[:n])
+		}
+		stackBuf = make([]byte, 2*len(stackBuf))
+	}
+}
+
+func parseStates(buf []byte) map[uint64]string {
+	out := map[uint64]string{}
+	key := []byte("goroutine ")
+	for i := 0; i < len(buf); {
+		if !(i == 0 || buf[i-1] == '\n') || !bytes.HasPrefix(buf[i:], key) {
+			j := bytes.IndexByte(buf[i:], '\n')
+			if j < 0 {
+				break
+			}
+			i += j + 1
+			continue
+		}
+		p := i + len(key)
+		var id uint64
+		for p < len(buf) && buf[p] >= '0' && buf[p] <= '9' {
+			id = id*10 + uint64(buf[p]-'0')
+			p++
+		}
+		// " [state, ...]:" or " gp=... [state]:"
+		q := bytes.IndexByte(buf[p:], '[')
+		e := bytes.IndexByte(buf[p:], '\n')
+		if q >= 0 && (e < 0 || q < e) {
+			st := buf[p+q+1:]
+			k := 0
+			for k < len(st) && st[k] != ']' && st[k] != ',' {
+				k++
+			}
+			out[id] = string(st[:k])
+		}
+		if e < 0 {
 			break
 		}
-		buf = make([]byte, 2*len(buf))
-	}
-	out := map[uint64]string{}
-	for _, m := range reGo.FindAllSubmatch(buf, -1) {
-		id, _ := strconv.ParseUint(string(m[1]), 10, 64)
-		out[id] = string(m[2])
+		i = p + e + 1
 	}
 	return out
 }
@@ -90,6 +118,7 @@ type event struct {
 }
 
 type ctl struct {
+	drain atomic.Bool // every hook passes through (used to flush pending requests at the end)
 	mu    sync.Mutex
 	byGid map[uint64]*actor
 	ev    chan event
@@ -104,7 +133,7 @@ var curCtl atomic.Pointer[ctl]
 func installHook() {
 	gohlslib.VerifSetHook(func(point string) {
 		c := curCtl.Load()
-		if c == nil {
+		if c == nil || c.drain.Load() {
 			return
 		}
 		gid := goid()
@@ -130,7 +159,7 @@ func installHook() {
 }
 
 func newCtl(m *gohlslib.Muxer) *ctl {
-	c := &ctl{byGid: map[uint64]*actor{}, ev: make(chan event, 64), m: m, seqGid: goid()}
+	c := &ctl{byGid: map[uint64]*actor{}, ev: make(chan event, 1024), m: m, seqGid: goid()}
 	curCtl.Store(c)
 	return c
 }
@@ -179,8 +208,9 @@ func (c *ctl) spawnWriter(noClose bool) (*actor, chan func()) {
 
 type waitResult struct {
 	ev      *event
-	blocked string // "sync.Mutex.Lock" / "sync.Cond.Wait": the watched goroutines are all parked there
-	hang    bool   // watchdog
+	blocked string            // "sync.Mutex.Lock" / "sync.Cond.Wait": the watched goroutines are all parked there
+	states  map[int]string    // per watched actor, when blocked
+	hang    bool              // watchdog
 }
 
 // await waits for the next event. While waiting it inspects the scheduler state of the
@@ -207,10 +237,14 @@ func (c *ctl) await(watch []*actor, watchdog time.Duration) waitResult {
 			st := gstates()
 			all := true
 			kind := ""
+			per := map[int]string{}
 			for _, a := range watch {
 				s := st[a.gid]
+				per[a.id] = s
 				if s == "sync.Mutex.Lock" || s == "sync.Cond.Wait" {
-					kind = s
+					if kind == "" || s == "sync.Mutex.Lock" {
+						kind = s
+					}
 				} else {
 					all = false
 				}
@@ -218,7 +252,7 @@ func (c *ctl) await(watch []*actor, watchdog time.Duration) waitResult {
 			if all && len(c.ev) == 0 {
 				stable++
 				if stable >= 3 {
-					return waitResult{blocked: kind}
+					return waitResult{blocked: kind, states: per}
 				}
 			} else {
 				stable = 0
@@ -239,9 +273,14 @@ func (c *ctl) release(a *actor) { a.resume <- struct{}{} }
 func (c *ctl) intoWait(a *actor) error {
 	c.release(a)
 	deadline := time.Now().Add(10 * time.Second)
-	for {
+	for n := 0; ; n++ {
 		runtime.Gosched()
-		if gstates()[a.gid] == "sync.Cond.Wait" {
+		// it held the mutex at the hook: a free mutex means it has unlocked inside cond.Wait()
+		if gohlslib.VerifMutexFree(c.m) {
+			return nil
+		}
+		// another woken requester may have taken the mutex at once: ask the runtime
+		if n%200 == 199 && gstates()[a.gid] == "sync.Cond.Wait" {
 			return nil
 		}
 		if time.Now().After(deadline) {
